@@ -436,7 +436,7 @@ static int count_runnable()
 // `dflt` receives what the default rule (lowest id) would have chosen.
 static SimThread* choose_other(SimThread* me, SimThread** dflt)
 {
-    SimThread* cand[MAXT];
+    static SimThread* cand[MAXT];    // static: simulated threads may run on tiny task stacks
     // fairness: under rr / quiescence every runnable thread takes its turn; the random strategies
     // prefer threads that are not known to be spinning, but not always
     bool fair = g_quiesced || g_cfg.strategy == SIM_RR || g_cfg.strategy == SIM_SCRIPT;
@@ -634,7 +634,7 @@ static void point(SimThread* me, int kind, const void* addr, uintptr_t pc)
     {
         if (g_ncondwait > 0 && g_cfg.p_spurious && rnd32() < g_cfg.p_spurious)
         {
-            SimThread* w[MAXT];
+            static SimThread* w[MAXT];
             int n = 0;
             for (int i = 0; i < g_nthr; i++)
                 if (g_thr[i].st == T_COND) w[n++] = &g_thr[i];
@@ -1476,7 +1476,7 @@ SIM_EXPORT int pthread_cond_signal(pthread_cond_t* c)
         return real_pthread_cond_signal(c);
     }
     point(me, K_CSIGNAL, c, PC());
-    SimThread* w[MAXT];
+    static SimThread* w[MAXT];
     int n = 0;
     SimThread* oldest = nullptr;
     for (int i = 0; i < g_nthr; i++)
@@ -1723,12 +1723,16 @@ static void exit_key_dtor(void* p)
     thread_finish(me);
 }
 
+static void (*g_thread_start_hook)(void) = nullptr;
+SIM_EXPORT void sim_set_thread_start_hook(void (*fn)(void)) { g_thread_start_hook = fn; }
+
 static void* trampoline(void* p)
 {
     SimThread* me = (SimThread*) p;
     tl_self = me;
     pthread_setspecific(g_exit_key, me);
     park(me);
+    if (g_thread_start_hook) g_thread_start_hook();
     void* r = me->fn(me->arg);
     me->ret = r;
     return r;
